@@ -64,6 +64,30 @@ func runFoGeneric(b *Batch, prop string) {
 			o.maxWorkers = 12
 		}
 		c := genFoCase(rng, o)
+		if prop == "C01" && i%6 == 5 {
+			// buffer-reuse family: a background build of key A is in flight while its caller rewrites the key buffer to key B,
+			// and other callers keep building B - a release of the wrong lock lets two builds of B overlap
+			c.Cfg.SyncUpdate = false
+			c.CfgS = c.Cfg.String()
+			c.NKeys, c.Collide = 2, rng.Intn(3) == 0
+			c.States = []string{"stale", []string{"absent", "stale", "absent"}[rng.Intn(3)]}
+			c.Primed = []bool{false, false}
+			c.FaultAt = -1
+			c.FailPct = []int{0, 0, 30}[rng.Intn(3)]
+			c.Scripts = [][]getSpec{{{Key: 0, Mutate: 1, MutateTo: 1}}}
+			if rng.Intn(2) == 0 {
+				c.Scripts[0] = append(c.Scripts[0], getSpec{Key: 1, SkipRead: true})
+			}
+			nw := 2 + rng.Intn(3)
+			for w := 0; w < nw; w++ {
+				var sc []getSpec
+				for g := 0; g < 2+rng.Intn(2); g++ {
+					sc = append(sc, getSpec{Key: 1, SkipRead: rng.Intn(2) == 0})
+				}
+				c.Scripts = append(c.Scripts, sc)
+			}
+			b.R.Count("family.buffer_reuse", 1)
+		}
 		if prop == "C02" && i%3 == 0 {
 			// fault enumeration: the same case is re-run with a backend failure injected at every call index in turn
 			c.FaultAt = -1
